@@ -483,6 +483,10 @@ func (r *c10Real) httpCall(sc c10Script) (c10Transcript, error) {
 		return tr, err
 	}
 	req.Header.Set("Content-Type", "application/json")
+	// what many HTTP/1.1 clients and intermediaries send on every request; it describes this
+	// connection and is nobody else's business
+	req.Header.Set("Connection", "keep-alive")
+	req.Header.Set("Keep-Alive", "timeout=5")
 	for k, vs := range c10MD(sc) {
 		for _, v := range vs {
 			if strings.HasSuffix(k, "-bin") {
